@@ -72,6 +72,9 @@ pub struct Plan {
     /// a pre-existing destination file is LONGER than the bindings that will replace it
     #[serde(default)]
     pub old_longer: bool,
+    /// last component of a file destination: with the backend's extension, another one, or none
+    #[serde(default)]
+    pub dest_name: String,
     pub sim: SimCfg,
     pub schedule: Option<Vec<u8>>,
     /// "fault-free" | "sweep" | "multi"
@@ -190,7 +193,7 @@ fn prepare_dest_inner(p: &Plan, d: &str, ext: &str, old_bytes: &[u8]) -> Dest {
             Dest { out: OutSel::File(dir), final_path: Some(f), old_path: old, old_content: vec![] }
         }
         (OutKind::File, DestState::ExistingFile) => {
-            let f = format!("{d}/bindings{ext}");
+            let f = if p.dest_name.is_empty() { format!("{d}/bindings{ext}") } else { format!("{d}/{}", p.dest_name) };
             std::fs::write(&f, old_bytes).unwrap();
             Dest { out: OutSel::File(f.clone()), final_path: Some(f.clone()), old_path: Some(f), old_content: vec![] }
         }
@@ -205,7 +208,7 @@ fn prepare_dest_inner(p: &Plan, d: &str, ext: &str, old_bytes: &[u8]) -> Dest {
             Dest { out: OutSel::File(f.clone()), final_path: Some(f), old_path: Some(parent), old_content: vec![] }
         }
         (OutKind::File, _) => {
-            let f = format!("{d}/bindings{ext}");
+            let f = if p.dest_name.is_empty() { format!("{d}/bindings{ext}") } else { format!("{d}/{}", p.dest_name) };
             Dest { out: OutSel::File(f.clone()), final_path: Some(f), old_path: None, old_content: vec![] }
         }
     }
@@ -365,7 +368,8 @@ impl Scenario for C20Lib {
         simcfg.stack_kb = *root.fork("layout").pick(&[2048usize, 8192]);
         simcfg.capture_stdout = out == OutKind::Stdout;
         let old_longer = w.chance(1, 2);
-        let p = Plan { seed, set, order, malform, backend, delivery, bp, out, dest, old_longer, sim: simcfg, schedule: None, phase: "fault-free".into() };
+        let dest_name = w.pick(&["", "", "bindings", "out.d", "asn1-bindings.generated", "Makefile"]).to_string();
+        let p = Plan { seed, set, order, malform, backend, delivery, bp, out, dest, old_longer, dest_name, sim: simcfg, schedule: None, phase: "fault-free".into() };
         serde_json::to_value(&p).unwrap()
     }
 
